@@ -147,8 +147,11 @@ Proof. intros bm kdf e dd H1 H2. exact (pkcs8_encrypted bm kdf e dd H1 H2). Qed.
 Print Assumptions pkcs8_encrypted_roundtrip.
 
 (* decoding with ANOTHER password: an error, unless the wrongly decrypted bytes happen to parse as a PKCS#8 SM2
-   key (then that key is returned).  The theorem is this disjunction; the check measures that the second case
-   never occurs on the corpus.  Nothing weaker can be proved without assumptions about AES/PBKDF2. *)
+   key (then that key is returned).  MODEL-LEVEL DECISION, close to the definition of the model function: the
+   theorem is this disjunction, i.e. it only says that the decoder has no third outcome (no key other than the one
+   the decrypted bytes denote, no success without a parse).  That a wrong password IS refused is not proved - it cannot
+   be without assumptions about AES / PBKDF2 - and is established only differentially: tie = the PW cases of the
+   driver (every wrong password against the real ParsePKCS8EcryptedPrivateKey, HMAC-equivalent passwords excluded). *)
 Theorem wrong_password_outcome :
   forall (base_mult : N -> N * N) (kdf : list N -> list N -> list N) (cbc_dec : list N -> list N -> list N -> list N)
          (e : enc_blob) (pwd' : list N),
@@ -169,7 +172,13 @@ Example pkcs8_encrypted_toy :
 Proof. vm_compute. auto. Qed.
 
 (* ---- TLS key-pair loaders ---------------------------------------------------------------------------------------- *)
-(* decision logic of gmtls.GMX509KeyPairs (LoadGMX509KeyPairs), GMX509KeyPairsSingle (LoadGMX509KeyPair) and
+(* MODEL-LEVEL DECISIONS.  The loader functions of Ser/SerModel.v are transcribed by hand from gmtls (no translator
+   tie); the theorems below state what that decision logic accepts, as "iff" against an independent specification
+   (Ser/SerSpec.v: key_matches, sm2_pair and the pem_ predicates), and are close to definitional for the SM2 rows.  That the Go
+   loaders take the same decisions is established differentially only: tie = the LD / LP cases of the driver (real
+   LoadGMX509KeyPairs / GMX509KeyPairsSingle / X509KeyPair on matching, mismatching (n-d, other point) and
+   composed PEM inputs) compared with the extracted model.
+   Decision logic of gmtls.GMX509KeyPairs (LoadGMX509KeyPairs), GMX509KeyPairsSingle (LoadGMX509KeyPair) and
    X509KeyPair (LoadX509KeyPair) over what the parsers deliver.  SM2 certificates: accepted exactly when the key
    is the SM2 private key of the certificate's public point (curve, X and Y compared; for the dual loader both the
    signing and the encryption pair). *)
